@@ -1,0 +1,7 @@
+//go:build !verif
+
+package types
+
+// Verification hooks are compiled out without the verif build tag.
+
+func vhTy(kind int) {}
